@@ -17,7 +17,8 @@ From Mpc Require Import Gen.Thresholds Lang.Mini Lang.Ssa Lang.CircGen
   Builders.Adder Builders.Sub Builders.Mult Builders.Div Builders.Cmp Builders.Mux
   Builders.Index Builders.Bitwise
   Builders.AdderProof Builders.SubProof Builders.KaratsubaProof Builders.CmpProof Builders.MuxProof
-  Builders.IndexProof Builders.BitwiseProof Builders.HammingProof
+  Builders.IndexProof Builders.BitwiseProof Builders.Hamming Builders.HammingProof
+  Builders.KsProof Builders.WallaceProof Builders.StructWallace
   Builders.StructAdder Builders.StructArith Builders.StructHamming Builders.StructMult Builders.StructCmp
   Builders.StructIndex Builders.StructDiv Builders.DivProof Lang.CircGenDivProof.
 Import ListNotations.
@@ -319,8 +320,8 @@ Proof.
   reflexivity.
 Qed.
 
-Lemma okp_cg_resize w t :
-  okp false (cg_resize w t) (fun w' => length w' = s_bits t)
+Lemma okp_cg_resize tg w t :
+  okp tg (cg_resize w t) (fun w' => length w' = s_bits t)
       (fun w' e => valN e w' = resize (length w) (valN e w) t).
 Proof.
   unfold cg_resize. destruct (Nat.eqb (length w) (s_bits t)) eqn:E.
@@ -360,8 +361,8 @@ Proof.
     replace (Nat.ltb (cw - 1) cw) with true by (symmetry; apply Nat.ltb_lt; lia). reflexivity.
 Qed.
 
-Lemma okp_cg_opnd vals vs o :
-  okp false (cg_opnd vals o) (fun w => length w = opnd_bits o)
+Lemma okp_cg_opnd tg vals vs o :
+  okp tg (cg_opnd vals o) (fun w => length w = opnd_bits o)
       (fun w e => inv e vals vs -> valN e w = opnd_val vs o).
 Proof.
   destruct o as [i t|cw cv t]; cbn [cg_opnd opnd_bits opnd_ty opnd_val].
@@ -375,9 +376,9 @@ Proof.
     rewrite map_length, seq_length. apply resize_norm.
 Qed.
 
-Lemma okp_mapM {A B} (f : A -> M B) (R : A -> B -> Prop) (P : A -> B -> Emit.env -> Prop) l :
-  (forall a, okp false (f a) (R a) (P a)) ->
-  okp false (mapM f l) (fun bs => Forall2 R l bs) (fun bs e => Forall2 (fun a b => P a b e) l bs).
+Lemma okp_mapM tg {A B} (f : A -> M B) (R : A -> B -> Prop) (P : A -> B -> Emit.env -> Prop) l :
+  (forall a, okp tg (f a) (R a) (P a)) ->
+  okp tg (mapM f l) (fun bs => Forall2 R l bs) (fun bs e => Forall2 (fun a b => P a b e) l bs).
 Proof.
   intros H. induction l as [|a l IH]; cbn [mapM].
   - apply okp_ret; constructor.
@@ -819,7 +820,34 @@ Proof.
     eapply N.lt_trans; [apply N.mod_lt; exact B0|exact MB].
 Qed.
 
+(* ---- either target ---- *)
+Lemma okm_new_subtractor_any t x y z :
+  (1 <= length z)%nat -> (1 <= Nat.max (length x) (length y))%nat ->
+  (length z <= Nat.max (length x) (length y))%nat ->
+  okm t (new_subtractor x y z)
+      (fun z' e => length z' = length z /\
+         valN e z' = (valN e x + 2 ^ N.of_nat (length z)
+                      - valN e y mod 2 ^ N.of_nat (length z)) mod 2 ^ N.of_nat (length z)).
+Proof.
+  intros Hz Hm Hw. destruct t.
+  - eapply okm_weaken; [apply okm_new_subtractor_gmw; assumption|]. cbv beta.
+    intros z' e [L V]. split; [exact L|]. cbv zeta in V.
+    replace (Nat.min (S (Nat.max (length x) (length y))) (length z)) with (length z) in V by lia.
+    rewrite V. apply sub_forms. apply N.pow_nonzero. discriminate.
+  - apply okm_new_subtractor_yao; lia.
+Qed.
+
+Lemma okm_new_multiplier_any t thr x y z :
+  (1 <= Nat.max (length x) (length y))%nat -> (1 <= length z)%nat ->
+  okm t (new_multiplier multiplierArrayTresholds thr x y z)
+      (fun z' e => length z' = length z /\
+                   valN e z' = (valN e x * valN e y) mod 2 ^ N.of_nat (length z)).
+Proof.
+  intros Hm Hz. destruct t; [apply okm_new_multiplier_gmw; exact Hz | apply okm_new_multiplier_yao_shipped; assumption].
+Qed.
+
 Section Instr.
+Variable tg : bool.
 Variable thr : nat.
 Variable vs : list Ssa.sval.
 
@@ -842,12 +870,12 @@ Lemma max_pow_le a b : (a <= b)%nat -> pow2 a <= pow2 b.
 Proof. intros H. unfold pow2. apply N.pow_le_mono_r; lia. Qed.
 
 Lemma okm_cg_body i ws :
-  cg_wf_instr i = true ->
+  cg_wf_instr i = true -> ok_tg tg i = true ->
   Forall2 (fun a w => length w = opnd_bits a) (i_args i) ws ->
-  okm false (cg_body multiplierArrayTresholds thr i ws)
+  okm tg (cg_body multiplierArrayTresholds thr i ws)
       (fun o e => Forall2 (fun a w => valN e w = opnd_val vs a) (i_args i) ws -> post i o e).
 Proof.
-  intros WF FR. destruct i as [op args out aux]. unfold cg_wf_instr in WF. unfold post, cg_body.
+  intros WF HD FR. destruct i as [op args out aux]. unfold cg_wf_instr in WF. unfold ok_tg in HD. unfold post, cg_body.
   cbn [i_op i_args i_out i_aux] in *.
   destruct op; try discriminate WF; split_wf WF; args_n WF; inv_F; natb;
     cbn [nth arg opnd_const] in *; cbv beta zeta;
@@ -860,54 +888,52 @@ Proof.
         rewrite Vz, Lo; unfold eval_instr, bin; cbn [i_op i_args i_out arg nth];
         symmetry; repeat match goal with V : valN e _ = _ |- _ => rewrite V end; apply arith_add; lia).
   1-2: (apply okm_bld; intros o Lo;
-        eapply okm_weaken; [apply okm_new_subtractor_yao; lia|]; cbv beta;
+        eapply okm_weaken; [apply okm_new_subtractor_any; lia|]; cbv beta;
         intros z' e [Lz Vz] HF; inv_F; split; [lia|];
         rewrite Vz, Lo; unfold eval_instr, bin; cbn [i_op i_args i_out arg nth];
         symmetry; repeat match goal with V : valN e _ = _ |- _ => rewrite V end; apply arith_sub; lia).
   1-2: (apply okm_bld; intros o Lo;
-        eapply okm_weaken; [apply okm_new_multiplier_yao_shipped; lia|]; cbv beta;
+        eapply okm_weaken; [apply okm_new_multiplier_any; lia|]; cbv beta;
         intros z' e [Lz Vz] HF; inv_F; split; [lia|];
         rewrite Vz, Lo; unfold eval_instr, bin; cbn [i_op i_args i_out arg nth];
         symmetry; repeat match goal with V : valN e _ = _ |- _ => rewrite V end; apply arith_mul; lia).
   (* idiv udiv imod umod *)
-  1: { apply okm_bldu; intros o Lo.
-       eapply okm_weaken; [apply okm_new_idivider_q; lia|]. cbv beta.
-       intros u e Vz HF; inv_F. split; [exact Lo|]. cbv zeta in Vz. rewrite Vz.
+  1: { destruct tg; [cbn in HD; discriminate HD|]. apply okm_bldu; intros o Lo.
+       eapply okm_weaken; [apply okm_new_idivider_q_le; lia|]. cbv beta.
+       intros u e Vz HF; inv_F. split; [exact Lo|]. cbv zeta in Vz. rewrite Vz, Lo.
        unfold eval_instr, bin; cbn [i_op i_args i_out arg nth].
-       rewrite !e_last by lia.
        repeat match goal with L : length _ = opnd_bits _ |- _ => rewrite L end.
        repeat match goal with V : valN e _ = _ |- _ => rewrite V end.
-       repeat match goal with E : opnd_bits a1 = _ |- _ => rewrite E end.
-       match goal with E : s_bits out = _ |- _ => rewrite E end.
-       rewrite Nat.max_id. symmetry.
-       rewrite arith_idiv; [reflexivity | lia | apply opnd_val_lt |].
-       match goal with E : opnd_bits a1 = _ |- _ => rewrite <- E end. apply opnd_val_lt. }
-  1: (apply okm_bldu; intros o Lo;
-      eapply okm_weaken; [apply okm_new_udivider_q; lia|]; cbv beta;
-      intros u e Vz HF; inv_F; split; [exact Lo|];
-      rewrite Vz, Lo; unfold eval_instr, bin; cbn [i_op i_args i_out arg nth];
-      repeat match goal with V : valN e _ = _ |- _ => rewrite V end;
-      match goal with E : s_bits out = _ |- _ => rewrite E end;
-      symmetry; apply arith_udiv; (eapply N.lt_le_trans; [apply opnd_val_lt | apply max_pow_le; lia])).
-  1: { apply okm_bldu; intros o Lo.
-       eapply okm_weaken; [apply okm_new_idivider_r; lia|]. cbv beta.
-       intros u e Vz HF; inv_F. split; [exact Lo|]. cbv zeta in Vz. rewrite Vz.
+       rewrite <- (norm_norm_le (s_bits out) (Nat.max (opnd_bits a0) (opnd_bits a1))) by lia.
+       rewrite arith_idiv; [reflexivity | lia | |];
+         (eapply N.lt_le_trans; [apply opnd_val_lt | apply max_pow_le; lia]). }
+  1: { destruct tg; [cbn in HD; discriminate HD|]. apply okm_bldu; intros o Lo.
+       eapply okm_weaken; [apply okm_new_udivider_q_le; lia|]. cbv beta.
+       intros u e Vz HF; inv_F. split; [exact Lo|]. rewrite Vz, Lo.
        unfold eval_instr, bin; cbn [i_op i_args i_out arg nth].
-       rewrite !e_last by lia.
        repeat match goal with L : length _ = opnd_bits _ |- _ => rewrite L end.
        repeat match goal with V : valN e _ = _ |- _ => rewrite V end.
-       repeat match goal with E : opnd_bits a1 = _ |- _ => rewrite E end.
-       match goal with E : s_bits out = _ |- _ => rewrite E end.
-       rewrite Nat.max_id. symmetry.
-       rewrite arith_imod; [reflexivity | lia | apply opnd_val_lt |].
-       match goal with E : opnd_bits a1 = _ |- _ => rewrite <- E end. apply opnd_val_lt. }
-  1: (apply okm_bldu; intros o Lo;
-      eapply okm_weaken; [apply okm_new_udivider_r; lia|]; cbv beta;
-      intros u e Vz HF; inv_F; split; [exact Lo|];
-      rewrite Vz; unfold eval_instr, bin; cbn [i_op i_args i_out arg nth];
-      repeat match goal with V : valN e _ = _ |- _ => rewrite V end;
-      match goal with E : s_bits out = _ |- _ => rewrite E end;
-      symmetry; apply arith_umod; (eapply N.lt_le_trans; [apply opnd_val_lt | apply max_pow_le; lia])).
+       rewrite <- (norm_norm_le (s_bits out) (Nat.max (opnd_bits a0) (opnd_bits a1))) by lia.
+       rewrite arith_udiv by (eapply N.lt_le_trans; [apply opnd_val_lt | apply max_pow_le; lia]).
+       reflexivity. }
+  1: { destruct tg; [cbn in HD; discriminate HD|]. apply okm_bldu; intros o Lo.
+       eapply okm_weaken; [apply okm_new_idivider_r_le; lia|]. cbv beta.
+       intros u e Vz HF; inv_F. split; [exact Lo|]. cbv zeta in Vz. rewrite Vz, Lo.
+       unfold eval_instr, bin; cbn [i_op i_args i_out arg nth].
+       repeat match goal with L : length _ = opnd_bits _ |- _ => rewrite L end.
+       repeat match goal with V : valN e _ = _ |- _ => rewrite V end.
+       rewrite <- (norm_norm_le (s_bits out) (Nat.max (opnd_bits a0) (opnd_bits a1))) by lia.
+       rewrite arith_imod; [reflexivity | lia | |];
+         (eapply N.lt_le_trans; [apply opnd_val_lt | apply max_pow_le; lia]). }
+  1: { destruct tg; [cbn in HD; discriminate HD|]. apply okm_bldu; intros o Lo.
+       eapply okm_weaken; [apply okm_new_udivider_r_le; lia|]. cbv beta.
+       intros u e Vz HF; inv_F. split; [exact Lo|]. rewrite Vz, Lo.
+       unfold eval_instr, bin; cbn [i_op i_args i_out arg nth].
+       repeat match goal with L : length _ = opnd_bits _ |- _ => rewrite L end.
+       repeat match goal with V : valN e _ = _ |- _ => rewrite V end.
+       rewrite <- (norm_norm_le (s_bits out) (Nat.max (opnd_bits a0) (opnd_bits a1))) by lia.
+       rewrite arith_umod by (eapply N.lt_le_trans; [apply opnd_val_lt | apply max_pow_le; lia]).
+       reflexivity. }
   (* band bor bxor bclr *)
   1: (apply okm_bldu; intros o Lo;
       eapply okm_weaken; [apply okm_binary_and_trunc; lia|]; cbv beta;
@@ -935,7 +961,7 @@ Proof.
       apply (arith_bitwise BAndNot); [lia|exact I]).
   (* comparisons *)
   1: (apply okm_bldu; intros o Lo; rewrite W in Lo; destruct (len1 o Lo) as [r0 ->];
-      destruct (okm_int_cmp_pad false y y0 r0 (Nat.max (opnd_bits a0) (opnd_bits a1)) ltac:(lia) ltac:(lia))
+      destruct (okm_int_cmp_pad tg y y0 r0 (Nat.max (opnd_bits a0) (opnd_bits a1)) ltac:(lia) ltac:(lia))
         as (Kgt & Kge & Klt & Kle);
       eapply okm_weaken; [apply Klt|]; cbv beta; intros u e Hr HF; inv_F; split; [rewrite W; reflexivity|];
       rewrite valN_single, Hr, W; unfold eval_instr, bin; cbn [i_op i_args i_out arg nth];
@@ -951,7 +977,7 @@ Proof.
          eapply N.lt_le_trans; [apply opnd_val_lt | apply max_pow_le; lia] |];
       rewrite E1, b2n_norm1; reflexivity).
   1: (apply okm_bldu; intros o Lo; rewrite W in Lo; destruct (len1 o Lo) as [r0 ->];
-      destruct (okm_int_cmp_pad false y y0 r0 (Nat.max (opnd_bits a0) (opnd_bits a1)) ltac:(lia) ltac:(lia))
+      destruct (okm_int_cmp_pad tg y y0 r0 (Nat.max (opnd_bits a0) (opnd_bits a1)) ltac:(lia) ltac:(lia))
         as (Kgt & Kge & Klt & Kle);
       eapply okm_weaken; [apply Kle|]; cbv beta; intros u e Hr HF; inv_F; split; [rewrite W; reflexivity|];
       rewrite valN_single, Hr, W; unfold eval_instr, bin; cbn [i_op i_args i_out arg nth];
@@ -967,7 +993,7 @@ Proof.
          eapply N.lt_le_trans; [apply opnd_val_lt | apply max_pow_le; lia] |];
       rewrite E2, b2n_norm1; reflexivity).
   1: (apply okm_bldu; intros o Lo; rewrite W in Lo; destruct (len1 o Lo) as [r0 ->];
-      destruct (okm_int_cmp_pad false y y0 r0 (Nat.max (opnd_bits a0) (opnd_bits a1)) ltac:(lia) ltac:(lia))
+      destruct (okm_int_cmp_pad tg y y0 r0 (Nat.max (opnd_bits a0) (opnd_bits a1)) ltac:(lia) ltac:(lia))
         as (Kgt & Kge & Klt & Kle);
       eapply okm_weaken; [apply Kgt|]; cbv beta; intros u e Hr HF; inv_F; split; [rewrite W; reflexivity|];
       rewrite valN_single, Hr, W; unfold eval_instr, bin; cbn [i_op i_args i_out arg nth];
@@ -983,7 +1009,7 @@ Proof.
          eapply N.lt_le_trans; [apply opnd_val_lt | apply max_pow_le; lia] |];
       rewrite E3, b2n_norm1; reflexivity).
   1: (apply okm_bldu; intros o Lo; rewrite W in Lo; destruct (len1 o Lo) as [r0 ->];
-      destruct (okm_int_cmp_pad false y y0 r0 (Nat.max (opnd_bits a0) (opnd_bits a1)) ltac:(lia) ltac:(lia))
+      destruct (okm_int_cmp_pad tg y y0 r0 (Nat.max (opnd_bits a0) (opnd_bits a1)) ltac:(lia) ltac:(lia))
         as (Kgt & Kge & Klt & Kle);
       eapply okm_weaken; [apply Kge|]; cbv beta; intros u e Hr HF; inv_F; split; [rewrite W; reflexivity|];
       rewrite valN_single, Hr, W; unfold eval_instr, bin; cbn [i_op i_args i_out arg nth];
@@ -1091,7 +1117,7 @@ Proof.
        assert (La : length (skipn off y) = (n * aux)%nat).
        { rewrite skipn_length, H1. pose proof (Nat.div_mod (opnd_bits a0 - off) aux ltac:(lia)) as D.
          rewrite W0 in D. unfold n. lia. }
-       eapply okm_weaken; [apply (okm_new_index false aux (skipn off y) y1 o n); lia|]. cbv beta.
+       eapply okm_weaken; [apply (okm_new_index tg aux (skipn off y) y1 o n); lia|]. cbv beta.
        intros o' e [-> Hv] HF; inv_F. split; [exact Lo|]. rewrite Hv.
        unfold eval_instr; cbn [i_op i_args i_out i_aux arg nth]. fold off. fold n.
        unfold index_sem. rewrite index_nbits_eq.
@@ -1108,6 +1134,41 @@ Proof.
        rewrite valN_single, odd_b2n.
        destruct (e c); repeat match goal with V : valN e _ = _ |- _ => rewrite V end;
          symmetry; apply norm_small; (eapply N.lt_le_trans; [apply opnd_val_lt | apply max_pow_le; lia]). }
+  (* concat *)
+  1: { apply okm_ret. intros e HF; inv_F. split; [rewrite app_length; lia|].
+       unfold eval_instr; cbn [i_op i_args i_out arg nth].
+       rewrite valN_app.
+       repeat match goal with L : length _ = opnd_bits _ |- _ => rewrite L end.
+       repeat match goal with V : valN e _ = _ |- _ => rewrite V end.
+       match goal with E : s_bits out = _ |- _ => rewrite E end.
+       symmetry. rewrite (N.mul_comm (opnd_val vs a1)). apply norm_small.
+       pose proof (opnd_val_lt vs a0). pose proof (opnd_val_lt vs a1).
+       rewrite pow2_add. unfold pow2 in *. nia. }
+  (* bts btc *)
+  1: { apply okm_bld; intros o Lo.
+       match goal with E : s_bits out = 1%nat |- _ => rewrite E in Lo |- * end.
+       destruct (len1 o Lo) as [r0 ->].
+       eapply okm_weaken; [apply okm_bit_set_test|]. cbv beta. intros r' e Hr HF; inv_F.
+       destruct r' as [|w [|w' r']]; try discriminate Hr. inversion Hr as [Hw].
+       split; [reflexivity|]. rewrite valN_single, Hw.
+       unfold eval_instr; cbn [i_op i_args i_out arg nth].
+       repeat match goal with V : valN e _ = _ |- _ => rewrite V end.
+       symmetry. apply b2n_norm1. }
+  1: { apply okm_bld; intros o Lo.
+       match goal with E : s_bits out = 1%nat |- _ => rewrite E in Lo |- * end.
+       destruct (len1 o Lo) as [r0 ->].
+       eapply okm_weaken; [apply okm_bit_clr_test|]. cbv beta. intros r' e Hr HF; inv_F.
+       destruct r' as [|w [|w' r']]; try discriminate Hr. inversion Hr as [Hw].
+       split; [reflexivity|]. rewrite valN_single, Hw.
+       unfold eval_instr; cbn [i_op i_args i_out arg nth].
+       repeat match goal with V : valN e _ = _ |- _ => rewrite V end.
+       symmetry. apply b2n_norm1. }
+  (* builtin: hamming *)
+  1: { apply okm_bld; intros o Lo.
+       eapply okm_weaken; [apply okm_hamming; lia|]. cbv beta.
+       intros z' e [Lz Vz] HF; inv_F. split; [lia|]. rewrite Vz, Lo.
+       unfold eval_instr; cbn [i_op i_args i_out arg nth].
+       repeat match goal with V : valN e _ = _ |- _ => rewrite V end. reflexivity. }
 Qed.
 End Instr.
 
@@ -1116,68 +1177,71 @@ Lemma Forall2_imp {A B} (R1 R2 : A -> B -> Prop) l1 l2 :
   (forall a b, R1 a b -> R2 a b) -> Forall2 R1 l1 l2 -> Forall2 R2 l1 l2.
 Proof. intros H F. induction F; constructor; auto. Qed.
 
-Lemma okm_cg_instr thr vals vs i : cg_wf_instr i = true ->
-  okm false (cg_instr multiplierArrayTresholds thr vals i) (fun o e => inv e vals vs -> post vs i o e).
+Lemma okm_cg_instr tg thr vals vs i : cg_wf_instr i = true -> ok_tg tg i = true ->
+  okm tg (cg_instr multiplierArrayTresholds thr vals i) (fun o e => inv e vals vs -> post vs i o e).
 Proof.
-  intros WF. unfold cg_instr.
+  intros WF HD. unfold cg_instr.
   eapply okm_bind_p;
-    [apply (okp_mapM (cg_opnd vals) (fun a w => length w = opnd_bits a)
+    [apply (okp_mapM tg (cg_opnd vals) (fun a w => length w = opnd_bits a)
                      (fun a w e => inv e vals vs -> valN e w = opnd_val vs a));
      intros a; apply okp_cg_opnd|].
-  intros ws FR. cbv beta. eapply okm_weaken; [apply (okm_cg_body thr vs i ws WF FR)|].
+  intros ws FR. cbv beta. eapply okm_weaken; [apply (okm_cg_body tg thr vs i ws WF HD FR)|].
   cbv beta. intros o e H HF I. apply H. eapply Forall2_imp; [|exact HF]. cbv beta. intros a w K. exact (K I).
 Qed.
 
-Lemma okm_cg_code thr : forall code vals vs, forallb cg_wf_instr code = true ->
-  okm false (cg_code multiplierArrayTresholds thr code vals)
+Lemma okm_cg_code tg thr : forall code vals vs, forallb cg_wf_instr code = true ->
+  forallb (ok_tg tg) code = true ->
+  okm tg (cg_code multiplierArrayTresholds thr code vals)
       (fun vals' e => inv e vals vs -> inv e vals' (run_code code vs)).
 Proof.
-  induction code as [|i r IH]; intros vals vs WF; cbn [cg_code].
+  induction code as [|i r IH]; intros vals vs WF WD; cbn [cg_code].
   - apply okm_ret. auto.
-  - cbn [forallb] in WF. apply andb_true_iff in WF. destruct WF as [Wi Wr].
-    eapply okm_bind; [apply (okm_cg_instr thr vals vs i Wi)|]. intros o. cbv beta.
-    eapply okm_weaken; [apply (IH (vals ++ [o]) (Ssa.step vs i) Wr)|]. cbv beta.
+  - cbn [forallb] in WF, WD. apply andb_true_iff in WF. destruct WF as [Wi Wr].
+    apply andb_true_iff in WD. destruct WD as [Di Dr].
+    eapply okm_bind; [apply (okm_cg_instr tg thr vals vs i Wi Di)|]. intros o. cbv beta.
+    eapply okm_weaken; [apply (IH (vals ++ [o]) (Ssa.step vs i) Wr Dr)|]. cbv beta.
     intros vals' e H Hp I. unfold run_code. cbn [fold_left]. apply H.
     destruct (Hp I) as [L V]. unfold Ssa.step. apply Forall2_app; [exact I|].
     constructor; [|constructor]. cbn [fst snd]. split; assumption.
 Qed.
 
-Lemma okp_cg_ret_wire w : okp false (cg_ret_wire w) (fun _ => True) (fun o e => e o = e w).
+Lemma okp_cg_ret_wire tg w : okp tg (cg_ret_wire w) (fun _ => True) (fun o e => e o = e w).
 Proof.
   unfold cg_ret_wire. eapply okp_bind; [apply okp_of_okm, okm_fresh|]. intros o _. cbv beta.
   eapply okp_bind; [apply okp_of_okm, okm_cc_id|]. intros u _. cbv beta.
   apply okp_ret; [exact I|]. intros e H _. exact H.
 Qed.
 
-Lemma okp_ret_wires ws :
-  okp false (mapM cg_ret_wire ws) (fun _ => True) (fun os e => valN e os = valN e ws).
+Lemma okp_ret_wires tg ws :
+  okp tg (mapM cg_ret_wire ws) (fun _ => True) (fun os e => valN e os = valN e ws).
 Proof.
   eapply okp_weaken;
-    [apply (okp_mapM cg_ret_wire (fun _ _ => True) (fun w o e => e o = e w)); intros w; apply okp_cg_ret_wire
+    [apply (okp_mapM tg cg_ret_wire (fun _ _ => True) (fun w o e => e o = e w)); intros w; apply okp_cg_ret_wire
     | auto |].
   cbv beta. intros os e _ H. unfold valN. f_equal.
   induction H as [|w o ws' os' H0 H IH]; [reflexivity|]. cbn [map]. rewrite H0, IH. reflexivity.
 Qed.
 
-Lemma okm_cg_prog thr p inp : cg_wf p = true ->
-  okm false (cg_prog multiplierArrayTresholds thr p)
+Lemma okm_cg_prog tg thr p inp : cg_wf_tg tg p = true ->
+  okm tg (cg_prog multiplierArrayTresholds thr p)
       (fun outs e => inv e (input_wires 0 (sp_inputs p)) (init_vals (sp_inputs p) inp) ->
                      map (valN e) outs = eval_ssa p inp).
 Proof.
-  intros WF. unfold cg_wf in WF. apply andb_true_iff in WF. destruct WF as [_ WC].
+  intros WF. unfold cg_wf_tg, cg_wf in WF. apply andb_true_iff in WF. destruct WF as [WF WD].
+  apply andb_true_iff in WF. destruct WF as [_ WC].
   unfold cg_prog.
   eapply okm_bind; [apply okm_zero|]. intros z. cbv beta.
   eapply okm_bind; [apply okm_one|]. intros o1. cbv beta.
-  eapply okm_bind; [apply (okm_cg_code thr (sp_code p) _ (init_vals (sp_inputs p) inp) WC)|].
+  eapply okm_bind; [apply (okm_cg_code tg thr (sp_code p) _ (init_vals (sp_inputs p) inp) WC WD)|].
   intros vals. cbv beta.
   set (vs' := run_code (sp_code p) (init_vals (sp_inputs p) inp)).
   eapply okm_bind_p;
-    [apply (okp_mapM (cg_opnd vals) (fun a w => length w = opnd_bits a)
+    [apply (okp_mapM tg (cg_opnd vals) (fun a w => length w = opnd_bits a)
                      (fun a w e => inv e vals vs' -> valN e w = opnd_val vs' a));
      intros a; apply okp_cg_opnd|].
   intros rws _. cbv beta.
   eapply okm_weaken;
-    [apply okm_of_okp, (okp_mapM (mapM cg_ret_wire) (fun _ _ => True) (fun ws os e => valN e os = valN e ws));
+    [apply okm_of_okp, (okp_mapM tg (mapM cg_ret_wire) (fun _ _ => True) (fun ws os e => valN e os = valN e ws));
      intros ws; apply okp_ret_wires|].
   cbv beta. intros outs e [_ HO] HR HC _ _ I0. unfold eval_ssa. fold vs'.
   specialize (HC I0).
@@ -1336,11 +1400,11 @@ Proof.
   rewrite Forall_forall in F. apply F, H.
 Qed.
 
-Lemma cg_body_s thr i ws s : wfst s -> gmw s = false -> cg_wf_instr i = true ->
+Lemma cg_body_s tg thr i ws s : wfst s -> gmw s = tg -> cg_wf_instr i = true -> ok_tg tg i = true ->
   Forall2 (fun a w => Forall (defd s) w /\ length w = opnd_bits a) (i_args i) ws ->
   oks (cg_body multiplierArrayTresholds thr i ws) s (fun o s' => adv s s' /\ Forall (defd s') o).
 Proof.
-  intros W G WF FR. destruct i as [op args out aux]. unfold cg_wf_instr in WF. unfold cg_body.
+  intros W G WF HD FR. destruct i as [op args out aux]. unfold cg_wf_instr in WF. unfold ok_tg in HD. unfold cg_body.
   cbn [i_op i_args i_out i_aux] in *.
   destruct op; try discriminate WF; split_wf WF; args_n WF; inv_F; natb;
     cbn [nth arg opnd_const] in *; cbv beta zeta;
@@ -1351,26 +1415,28 @@ Proof.
   1-2: (apply bld_s; [exact W|]; intros o s1 Ws1 S1 P ND L;
         apply new_subtractor_s; auto; try (eapply Forall_defd_step; eauto); lia).
   (* imult umult *)
-  1-2: (apply bld_s; [exact W|]; intros o s1 Ws1 S1 P ND L;
-        apply new_multiplier_yao_s; auto; try (eapply Forall_defd_step; eauto); try lia;
-        [apply thresholds_ge_3 | rewrite (step_gmw _ _ _ _ S1); exact G]).
+  1-2: (apply bld_s; [exact W|]; intros o s1 Ws1 S1 P ND L; destruct (gmw s) eqn:G;
+        [apply new_multiplier_gmw_s; auto; try (eapply Forall_defd_step; eauto); try lia;
+         rewrite (step_gmw _ _ _ _ S1); exact G
+        |apply new_multiplier_yao_s; auto; try (eapply Forall_defd_step; eauto); try lia;
+         [apply thresholds_ge_3 | rewrite (step_gmw _ _ _ _ S1); exact G]]).
   (* idiv udiv imod umod *)
-  1: (apply bldu_s; [exact W|]; intros o s1 Ws1 S1 P ND L;
+  1: (destruct (gmw s) eqn:G; [cbn in HD; discriminate HD|]; apply bldu_s; [exact W|]; intros o s1 Ws1 S1 P ND L;
       apply (new_idivider_q_s ninp s1 y y0 o); auto;
       try (eapply Forall_defd_step; eauto); try lia;
       rewrite (step_gmw _ _ _ _ S1); exact G).
-  1: (apply bldu_s; [exact W|]; intros o s1 Ws1 S1 P ND L;
+  1: (destruct (gmw s) eqn:G; [cbn in HD; discriminate HD|]; apply bldu_s; [exact W|]; intros o s1 Ws1 S1 P ND L;
       eapply oks_conseq;
         [apply (new_udivider_yao_s ninp s1 y y0 o []); rewrite ?app_nil_r; auto;
          try (eapply Forall_defd_step; eauto); try lia;
          rewrite (step_gmw _ _ _ _ S1); exact G|];
       cbv beta; intros u s2 Ws2 (S2 & Fq & Fr); rewrite app_nil_r in S2; split; [exact S2|];
       rewrite firstn_all2 in Fq by lia; exact Fq).
-  1: (apply bldu_s; [exact W|]; intros o s1 Ws1 S1 P ND L;
+  1: (destruct (gmw s) eqn:G; [cbn in HD; discriminate HD|]; apply bldu_s; [exact W|]; intros o s1 Ws1 S1 P ND L;
       apply (new_idivider_r_s ninp s1 y y0 o); auto;
       try (eapply Forall_defd_step; eauto); try lia;
       rewrite (step_gmw _ _ _ _ S1); exact G).
-  1: (apply bldu_s; [exact W|]; intros o s1 Ws1 S1 P ND L;
+  1: (destruct (gmw s) eqn:G; [cbn in HD; discriminate HD|]; apply bldu_s; [exact W|]; intros o s1 Ws1 S1 P ND L;
       eapply oks_conseq;
         [apply (new_udivider_yao_s ninp s1 y y0 [] o); cbn [app]; auto;
          try (eapply Forall_defd_step; eauto); try lia;
@@ -1470,6 +1536,18 @@ Proof.
        apply new_mux_s; auto; try (eapply Forall_defd_step; eauto); try lia.
        match goal with F : Forall (defd s) [c] |- _ => inversion F; subst end.
        eapply step_defd; eauto. }
+  (* concat bts btc hamming *)
+  1: (apply oks_ret; auto; split; [apply adv_refl|]; apply Forall_app; split; assumption).
+  1: (match goal with E : s_bits out = 1%nat |- _ => rewrite E end;
+      apply bld_s; [exact W|]; intros o s1 Ws1 S1 P ND L;
+      destruct (len1 o L) as [r0 ->]; inversion P; subst;
+      apply bit_set_test_s; auto; eapply Forall_defd_step; eauto).
+  1: (match goal with E : s_bits out = 1%nat |- _ => rewrite E end;
+      apply bld_s; [exact W|]; intros o s1 Ws1 S1 P ND L;
+      destruct (len1 o L) as [r0 ->]; inversion P; subst;
+      apply bit_clr_test_s; auto; eapply Forall_defd_step; eauto).
+  1: (apply bld_s; [exact W|]; intros o s1 Ws1 S1 P ND L;
+      apply hamming_s; auto; try (eapply Forall_defd_step; eauto); lia).
 Qed.
 End S.
 
@@ -1479,25 +1557,26 @@ Notation defd := (defd ninp). Notation pend := (pend ninp). Notation wfst := (wf
 Notation step := (StructProof.step ninp). Notation oks := (@oks ninp _).
 Notation adv := (adv ninp).
 
-Lemma cg_instr_s thr vals i s : wfst s -> gmw s = false -> cg_wf_instr i = true ->
+Lemma cg_instr_s tg thr vals i s : wfst s -> gmw s = tg -> cg_wf_instr i = true -> ok_tg tg i = true ->
   Forall (Forall (defd s)) vals ->
   oks (cg_instr multiplierArrayTresholds thr vals i) s (fun o s' => adv s s' /\ Forall (defd s') o).
 Proof.
-  intros W G WF FF. unfold cg_instr.
+  intros W G WF HD FF. unfold cg_instr.
   eapply oks_bind; [apply mapM_opnd_s; eauto|]. intros ws s1 W1 (A1 & F2). cbv beta.
-  eapply oks_conseq; [apply cg_body_s; [exact W1 | destruct A1; congruence | exact WF | exact F2]|].
+  eapply oks_conseq; [apply (cg_body_s ninp tg); [exact W1 | destruct A1; congruence | exact WF | exact HD | exact F2]|].
   cbv beta. intros o s2 W2 (A2 & F). split; [eapply adv_trans; eauto|exact F].
 Qed.
 
-Lemma cg_code_s thr : forall code vals s, wfst s -> gmw s = false ->
-  forallb cg_wf_instr code = true -> Forall (Forall (defd s)) vals ->
+Lemma cg_code_s tg thr : forall code vals s, wfst s -> gmw s = tg ->
+  forallb cg_wf_instr code = true -> forallb (ok_tg tg) code = true -> Forall (Forall (defd s)) vals ->
   oks (cg_code multiplierArrayTresholds thr code vals) s
       (fun vals' s' => adv s s' /\ Forall (Forall (defd s')) vals').
 Proof.
-  induction code as [|i r IH]; intros vals s W G WF FF; cbn [cg_code].
+  induction code as [|i r IH]; intros vals s W G WF WD FF; cbn [cg_code].
   - apply oks_ret; auto. split; [apply adv_refl|exact FF].
-  - cbn [forallb] in WF. apply andb_true_iff in WF. destruct WF as [Wi Wr].
-    eapply oks_bind; [apply cg_instr_s; eauto|]. intros o s1 W1 (A1 & F1). cbv beta.
+  - cbn [forallb] in WF, WD. apply andb_true_iff in WF. destruct WF as [Wi Wr].
+    apply andb_true_iff in WD. destruct WD as [Di Dr].
+    eapply oks_bind; [apply (cg_instr_s tg); eauto|]. intros o s1 W1 (A1 & F1). cbv beta.
     eapply oks_conseq; [apply IH; auto; [destruct A1; congruence|]|].
     + apply Forall_app. split; [eapply adv_FF; eauto|constructor; [exact F1|constructor]].
     + cbv beta. intros vals' s2 W2 (A2 & F2). split; [eapply adv_trans; eauto|exact F2].
@@ -1535,16 +1614,17 @@ Proof.
     apply oks_ret; auto. eapply adv_trans; [exact A1|exact A2].
 Qed.
 
-Lemma cg_prog_s thr p s : wfst s -> gmw s = false -> cg_wf p = true ->
+Lemma cg_prog_s tg thr p s : wfst s -> gmw s = tg -> cg_wf_tg tg p = true ->
   Forall (Forall (defd s)) (input_wires 0 (sp_inputs p)) ->
   oks (cg_prog multiplierArrayTresholds thr p) s (fun _ _ => True).
 Proof.
-  intros W G WF FF. unfold cg_wf in WF. apply andb_true_iff in WF. destruct WF as [_ WC].
+  intros W G WF FF. unfold cg_wf_tg, cg_wf in WF. apply andb_true_iff in WF. destruct WF as [WF WD].
+  apply andb_true_iff in WF. destruct WF as [_ WC].
   unfold cg_prog.
   sbind zero_s. intros z s1 W1 (S1 & D1). cbv beta.
   sbind one_s. intros o1 s2 W2 (S2 & D2). cbv beta.
   assert (A2 : adv s s2) by (eapply adv_trans; eapply step_adv; eauto).
-  eapply oks_bind; [apply (cg_code_s thr (sp_code p) _ s2 W2); [destruct A2; congruence|exact WC|eapply adv_FF; eauto]|].
+  eapply oks_bind; [apply (cg_code_s tg thr (sp_code p) _ s2 W2); [destruct A2; congruence|exact WC|exact WD|eapply adv_FF; eauto]|].
   intros vals s3 W3 (A3 & F3). cbv beta.
   eapply oks_bind; [apply mapM_opnd_s; eauto|]. intros rws s4 W4 (A4 & F4). cbv beta.
   eapply oks_conseq; [apply ret_all_s; [exact W4|]|auto].
@@ -1616,26 +1696,45 @@ Proof.
 Qed.
 
 (* ------------------------------------------------ the theorem *)
-Theorem circuitgen_correct_gen thr p inp : cg_wf p = true ->
-  eval_circuit (circuit_of_ssa_gen multiplierArrayTresholds thr false p) (input_bits (sp_inputs p) inp)
+Theorem circuitgen_correct_tg tg thr p inp : cg_wf_tg tg p = true ->
+  eval_circuit (circuit_of_ssa_gen multiplierArrayTresholds thr tg p) (input_bits (sp_inputs p) inp)
   = eval_ssa p inp.
 Proof.
   intros WF. unfold circuit_of_ssa_gen, eval_circuit.
   set (n := total_bits (sp_inputs p)).
   assert (Hn : (1 <= n)%nat).
-  { unfold cg_wf in WF. apply andb_true_iff in WF. destruct WF as [H _]. apply Nat.leb_le in H. exact H. }
+  { unfold cg_wf_tg, cg_wf in WF. apply andb_true_iff in WF. destruct WF as [WF _].
+    apply andb_true_iff in WF. destruct WF as [H _]. apply Nat.leb_le in H. exact H. }
   set (e0 := env_of_bits (input_bits (sp_inputs p) inp)).
-  assert (WS : wfst (N.of_nat n) (st0 (N.of_nat n) false)) by (apply wfst_st0; lia).
-  assert (SK : @oks (N.of_nat n) _ (cg_prog multiplierArrayTresholds thr p) (st0 (N.of_nat n) false) (fun _ _ => True)).
-  { apply cg_prog_s; auto. apply Forall_forall. intros l Hl. apply Forall_forall. intros w Hw.
+  assert (WS : wfst (N.of_nat n) (st0 (N.of_nat n) tg)) by (apply wfst_st0; lia).
+  assert (SK : @oks (N.of_nat n) _ (cg_prog multiplierArrayTresholds thr p) (st0 (N.of_nat n) tg) (fun _ _ => True)).
+  { apply (cg_prog_s (N.of_nat n) tg); auto. apply Forall_forall. intros l Hl. apply Forall_forall. intros w Hw.
     apply defd_input. pose proof (input_wires_lt _ _ _ _ Hl Hw). fold n in H. lia. }
-  destruct (run_st0 (N.of_nat n) (N.of_nat n) false _ _ _ (okm_cg_prog thr p inp WF) SK e0)
+  destruct (run_st0 (N.of_nat n) (N.of_nat n) tg _ _ _ (okm_cg_prog tg thr p inp WF) SK e0)
     as (outs & s' & E & C & D & _ & HP & HI).
   rewrite E. cbn [cc_gates cc_outs]. apply HP.
   apply inv_inputs. intros k Hk. fold n in Hk. rewrite N.add_0_l, HI by lia.
   unfold e0, env_of_bits. rewrite Nat2N.id. reflexivity.
 Qed.
 
-Theorem circuitgen_correct_partial p inp : cg_wf p = true ->
+Lemma cg_wf_tg_false p : cg_wf_tg false p = cg_wf p.
+Proof.
+  unfold cg_wf_tg. replace (forallb (ok_tg false) (sp_code p)) with true; [apply andb_true_r|].
+  symmetry. apply forallb_forall. intros i _. reflexivity.
+Qed.
+
+(* Yao target (utils.NewParams), every threshold *)
+Theorem circuitgen_correct_gen thr p inp : cg_wf p = true ->
+  eval_circuit (circuit_of_ssa_gen multiplierArrayTresholds thr false p) (input_bits (sp_inputs p) inp)
+  = eval_ssa p inp.
+Proof. intros WF. apply circuitgen_correct_tg. rewrite cg_wf_tg_false. exact WF. Qed.
+
+Theorem circuitgen_correct p inp : cg_wf p = true ->
   eval_circuit (circuit_of_ssa p) (input_bits (sp_inputs p) inp) = eval_ssa p inp.
 Proof. apply circuitgen_correct_gen. Qed.
+
+(* GMW target: everything but division *)
+Theorem circuitgen_correct_gmw thr p inp : cg_wf_tg true p = true ->
+  eval_circuit (circuit_of_ssa_gen multiplierArrayTresholds thr true p) (input_bits (sp_inputs p) inp)
+  = eval_ssa p inp.
+Proof. apply circuitgen_correct_tg. Qed.
